@@ -32,7 +32,9 @@ EXPLANATION = (
     ' '
     'R-C11.10 all readers of a RenameModel chain take the final name from the same element.'
     ' '
-    'R-C11.11 = R-C12.14.')
+    'R-C11.11 = R-C12.14.'
+    ' '
+    'R-C11.12 Simulation.get_app_sig consults the legacy app label only after the lookup by app_label (dominance on the CFG, or evaluation order inside one expression).')
 NOT_DECIDED = (
     'Absence of dangling references for all signatures and sequences; '
     'foreign-key validity in the database after the generated SQL.')
@@ -655,7 +657,51 @@ def r11_rejection_is_not_cannot_simulate(ctx):
     r14_rejection_is_not_cannot_simulate(ctx, rule_id='R-C11.11')
 
 
+def r12_simulation_resolves_its_own_app_first(ctx):
+    """Every model-level simulation (RenameModel, RenameField, DeleteField,
+    DeleteModel ...) works on Simulation.get_app_sig() and rewrites
+    references built from simulation.app_label.  The two agree only if the
+    signature it works on is the one stored under app_label whenever there
+    is one; the legacy label is a fallback for signatures written before the
+    app was relabelled.  Looking the legacy label up first hands the
+    simulation another app's models when that label is also some other
+    app's id: the rename happens there and the references are rewritten
+    here."""
+    ctx.rule('R-C11.12')
+    p = ctx.program
+    f = p.func('mutations.base', 'Simulation.get_app_sig')
+    g = ctx.cfg(f)
+    own, legacy = [], []
+    for n in g.nodes:
+        for c in n.calls():
+            if call_name(c) != 'get_app_sig' or not c.args:
+                continue
+            if is_self_attr(c.args[0], 'app_label'):
+                own.append((n, c))
+            elif is_self_attr(c.args[0], 'legacy_app_label'):
+                legacy.append((n, c))
+    ctx.floor('lookups by app_label in Simulation.get_app_sig', len(own), 1)
+    for ln, lc in legacy:
+        first = False
+        for on, oc in own:
+            if on is ln:
+                if (oc.lineno, oc.col_offset) < (lc.lineno, lc.col_offset):
+                    first = True
+            elif g.dominates(on, ln, follow_exc=False):
+                first = True
+        if first:
+            ctx.ok(f, 'the legacy label is consulted only after the app '
+                   'label', lc)
+        else:
+            ctx.finding(f, lc, 'Simulation.get_app_sig looks the app up by '
+                        'its legacy label before (or without) its app '
+                        'label: when the legacy label is another app\'s id '
+                        'the simulation edits that app while references are '
+                        'rewritten for this one', key='legacy-label-first')
+
+
 def run(ctx):
+    r12_simulation_resolves_its_own_app_first(ctx)
     r11_rejection_is_not_cannot_simulate(ctx)
     r10_rename_chain_readers_agree(ctx)
     r8_pragma_row_layout(ctx)
